@@ -11,6 +11,7 @@ import os
 import re
 import time
 import select
+import signal
 import socket
 
 from dbuswire import (Conn, build_message, METHOD_CALL, METHOD_RETURN, ERROR, SIGNAL, F_PATH, F_INTERFACE,
@@ -206,6 +207,7 @@ class Driver:
         if k == 'aclose':
             # abrupt close, no farewell ping; was the line already dead?
             waseof = False
+            c.flush_held()
             try:
                 c.s.setblocking(False)
                 waseof = c.s.recv(1, socket.MSG_PEEK) == b''
@@ -429,11 +431,24 @@ class Driver:
                     self.drain(s, obs[s], quiet=0.15)
                     st.stalled = False
                     rec_ops[s].append({'k': 'unstall'})
-        stalled_now = [s for s in sorted(self.slots) if self.slots[s].stalled and not self.slots[s].closed]
+        # ... and a client that will close abruptly in this round writes without ever reading again
+        leaving = [s for s in sorted(ops_in) if any(o['k'] == 'aclose' for o in ops_in[s])
+                   and (not self.slots[s].closed or any(o['k'] == 'connect' for o in ops_in[s]))]
+        stalled_now = sorted(set([s for s in sorted(self.slots) if self.slots[s].stalled and not self.slots[s].closed] + leaving))
         # phase 1a: everybody writes
         for s in order:
             st = self.slots[s]
             wrote = False
+            frozen = False
+            if s in leaving and not st.closed and not st.eof:
+                # nothing unread may be left in this client's inbox when it closes (closing with unread input resets
+                # the connection and the bus may then rightly drop what it has not read yet): read what is there, and
+                # keep the daemon from answering until the client has written everything and gone
+                self.drain(s, obs[s], quiet=0.05)
+                os.kill(self.daemon.pid, signal.SIGSTOP)
+                frozen = True
+                st.c.holding = bytearray()      # one write for the whole burst (many small writes exhaust the
+                                                # socket's send buffer long before its nominal size)
             for op in ops_in.get(s, []):
                 if op['k'] in ('stall', 'unstall'):
                     continue
@@ -455,6 +470,8 @@ class Driver:
                     hello_idx.setdefault(s, []).append(len(rec_ops[s]))
                 rec_ops[s].append(r)
                 wrote = wrote or r['k'] not in ('connect', 'connect_failed')
+            if frozen:
+                os.kill(self.daemon.pid, signal.SIGCONT)
             if st.closed or st.eof or st.monitor or st.mute or st.stalled:
                 continue
             if s in became:
@@ -491,10 +508,13 @@ class Driver:
                 rec_ops[s][i]['got'] = got
                 if got:
                     self.slots[s].c.unique = bytes(got).decode('latin-1')
-        # give the daemon a moment to process client closes (the model does not depend on it)
-        if closing:
+        # give the daemon a moment to process client closes (the model does not depend on it) -- except for clients
+        # that wrote and left without a farewell ping: the bus has dispatched all they wrote only when it has seen
+        # their end-of-file, i.e. when it has closed its side
+        left = [s for s in leaving if any(o['k'] == 'aclose' for o in rec_ops[s])]
+        if closing or left:
             t0 = time.time()
-            while time.time() - t0 < 1.0 and self.daemon.nfds() > nfd_before - len(closing) + \
+            while time.time() - t0 < (5.0 if left else 1.0) and self.daemon.nfds() > nfd_before - len(closing) - len(left) + \
                     sum(1 for s in rec_ops for o in rec_ops[s] if o['k'] == 'connect'):
                 time.sleep(0.002)
         if self.noexec_wait:
